@@ -325,6 +325,21 @@ def h_conditional(c):
   res, err = c.raises(enc.encode, list(ctrl), list(tgt[:-1]))
   c.check(err is not None and isinstance(err, ValueError),
           'length mismatch rejected')
+  # a target whose events span several steps (performance time shifts) under a
+  # control that counts one step per event: the wrapper reports the target's
+  ped = c.mod('performance_encoder_decoder')
+  poh = ped.PerformanceOneHotEncoding(num_velocity_bins=0, max_shift_steps=10)
+  ptgt = ed.OneHotEventSequenceEncoderDecoder(poh)
+  wrap = ed.ConditionalEventSequenceEncoderDecoder(cenc, ptgt)
+  shift = c.int('shift', 1, 10)
+  PE = c.mod('performance_lib').PerformanceEvent
+  labs2 = [poh.encode_event(PE(PE.NOTE_ON, 60)),
+           poh.encode_event(PE(PE.TIME_SHIFT, shift)),
+           poh.encode_event(PE(PE.NOTE_OFF, 60))]
+  c.check(c.eq(wrap.labels_to_num_steps(labs2), shift),
+          'labels_to_num_steps of the wrapper = steps of the target sequence')
+  c.check(wrap.default_event_label == ptgt.default_event_label,
+          'default label of the wrapper = the target\'s')
 
 
 def h_noteperf(c):
